@@ -48,6 +48,28 @@ def _random_choice_pair(fn, n, env, want):
     return pre, If(Op("=", Tm("coin", fv=["coin"]), C("true")), Tm("{0}.1", [c]), Tm("{0}.2", [c])), ty[1][0]
 
 
+def _random_choice_list(fn, n, env, want):
+    """`random.choice(xs)` on a list: the k-th call site (source order) draws position
+    `<oracle k> % len(xs)`; IndexError on an empty list."""
+    from py2lean import Tm, Op, V, C, bad
+    import ast
+    sites = sorted((c.lineno, c.col_offset) for c in ast.walk(fn.fn)
+                   if isinstance(c, ast.Call) and ast.unparse(c.func) == "random.choice")
+    names = fn.s["oracles"]
+    k = sites.index((n.lineno, n.col_offset))
+    if len(n.args) != 1 or k >= len(names):
+        bad(n, "random.choice call site without an oracle parameter in the spec")
+    pre, xs, ty = fn.expr(n.args[0], env)
+    if not (isinstance(ty, tuple) and ty[0] == "List"):
+        bad(n, "random.choice of something that is not a list")
+    o = names[k]
+    t = fn.tmp()
+    ln = Tm("(List.length {0})", [xs])
+    pre = pre + [("guard", Op("≠", ln, C("0"))),
+                 ("bind", t, Tm("{0}[(%s %% (List.length {0}))]?" % o, [xs], fv=[o]))]
+    return pre, V(t), ty[1]
+
+
 SPECS = {
     "Dominance": {
         "source": "artap/operators.py",
@@ -144,6 +166,45 @@ SPECS = {
                 "types": {"α": {".costs_signed": ("{0}", "α#cs")}},
                 "eq": {"α#cs": "(same {0} {1})"},
                 "calls": {"self._dominance.compare": {"fn": "cmp", "args": ["α#cs", "α#cs"], "ret": "Nat", "raises": True}},
+            },
+        ],
+    },
+    "Variation": {
+        "source": "artap/operators.py",
+        "serves": ["C08"],
+        "imports": ["ArtapModel.Model.Variation"],
+        "functions": [
+            {
+                "py": "Operator.clip", "lean": "Operator_clip",
+                "py_params": ["value", "min_value", "max_value"],
+                "params": [("value", "Rat"), ("min_value", "Rat"), ("max_value", "Rat")],
+                "vars": {"value": "Rat", "min_value": "Rat", "max_value": "Rat"},
+                "ret": "Rat",
+            },
+        ],
+    },
+    "Runs": {
+        "source": "artap/operators.py",
+        "serves": ["C09"],
+        "imports": ["ArtapModel.Model.Runs"],
+        "functions": [
+            {   # the two random.choice draws are the oracle parameters pick1, pick2 (as in the model)
+                "py": "Selector.pop_acceptance", "lean": "Selector_pop_acceptance",
+                "header": "{D : Type}",
+                "py_params": ["self", "individuals", "individual"],
+                "params": [("cmp", "D → D → Nat"), ("eq", "D → D → Bool"), ("individuals", L("D")),
+                           ("individual", "D"), ("pick1", "Nat"), ("pick2", "Nat")],
+                "vars": {"individual": "D"},
+                "state": {"individuals": ("individuals", L("D"))},
+                "ret": "Unit", "raises": True,
+                "result": ("{individuals}", L("D")),
+                "types": {"D": {".costs_signed": ("{0}", "D#cs")}},
+                "eq": {"D": "(eq {0} {1})"},
+                "oracles": ["pick1", "pick2"],
+                "calls": {
+                    "self.dominance.compare": {"fn": "cmp", "args": ["D#cs", "D#cs"], "ret": "Nat"},
+                    "random.choice": {"expr": _random_choice_list},
+                },
             },
         ],
     },
